@@ -8,6 +8,7 @@ from markupsafe import escape
 
 from liquid2.builtin import Blank
 from liquid2.builtin import Empty
+from liquid2.exceptions import LiquidValueError
 
 # NOTE: liquid2.builtin.expressions has a version of this too.
 
@@ -32,7 +33,11 @@ def to_liquid_string(val: Any, *, auto_escape: bool = False) -> str:
     elif isinstance(val, (Empty, Blank)):
         val = ""
     else:
-        val = str(val)
+        try:
+            val = str(val)
+        except ValueError as err:
+            # An int with more digits than sys.get_int_max_str_digits().
+            raise LiquidValueError(str(err), token=None) from err
 
     if auto_escape:
         val = escape(val)
